@@ -23,7 +23,7 @@ pub struct Script {
     pub stop: Stop,
 }
 
-pub const KINDS: [(u8, &str); 8] = [
+pub const KINDS: [(u8, &str); 10] = [
     (1, "(user 1)"),
     (2, "(user 2)"),
     (3, "(user 3)"),
@@ -32,6 +32,8 @@ pub const KINDS: [(u8, &str); 8] = [
     (6, "invalidData"),
     (7, "unexpectedEof"),
     (8, "outOfMemory"),
+    (9, "(user 5)"),
+    (10, "(user 6)"),
 ];
 
 /// a scripted hard failure: message ids from 900 up stand for an error built from the bare kind
@@ -57,6 +59,8 @@ fn kind_of(code: u8) -> ErrorKind {
         5 => ErrorKind::Other,
         6 => ErrorKind::InvalidData,
         8 => ErrorKind::OutOfMemory,
+        9 => ErrorKind::WouldBlock,
+        10 => ErrorKind::AddrInUse,
         _ => ErrorKind::UnexpectedEof,
     }
 }
@@ -263,20 +267,26 @@ pub fn c11<T: Full>(g: &mut Gen, b: &Budget, out: &mut Sink) {
         for _ in 0..(if b.thorough { 12 } else { 4 }) {
             let sc = Script { chunks: gen_chunks(g, stream.len()), intr: gen_intr(g, stream.len()), stop: Stop::None };
             let case = format!("decR {} {} {} {} dr", MODE, ty, hex(&stream), sc.sexp());
+            out.announce_timed(&case, 20);
             let o = run_reader::<T>("dr", &sc, &stream);
+            out.done();
             out.case(&case, &o);
             out.oracle("C11", o == format!("ok {} pulled={}", want, len), &case, &o);
             // whole-input entry points on the exact stream
             let sc2 = Script { chunks: gen_chunks(g, len), intr: gen_intr(g, len), stop: Stop::None };
             for entry in ["fr", "tfr"] {
                 let case = format!("decR {} {} {} {} {}", MODE, ty, hex(&bs), sc2.sexp(), entry);
+                out.announce_timed(&case, 20);
                 let o = run_reader::<T>(entry, &sc2, &bs);
+                out.done();
                 out.case(&case, &o);
                 out.oracle("C11", o == format!("ok {} pulled={}", want, len), &case, &o);
             }
             if tail > 0 {
                 let case = format!("decR {} {} {} {} fr", MODE, ty, hex(&stream), sc.sexp());
+                out.announce_timed(&case, 20);
                 let o = run_reader::<T>("fr", &sc, &stream);
+                out.done();
                 out.case(&case, &o);
                 out.oracle("C11", o == "err invalidData notAllBytesRead", &case, &o);
             }
@@ -303,7 +313,9 @@ pub fn c11<T: Full>(g: &mut Gen, b: &Budget, out: &mut Sink) {
                 Err(_) => "panic".into(),
             };
             let case = format!("decR {} {} {} {} dr", MODE, ty, hex(&x), sc.sexp());
+            out.announce_timed(&case, 20);
             let o = run_reader::<T>("dr", &sc, &x);
+            out.done();
             out.case(&case, &o);
             out.oracle("C11", o == slice_dr, &case, &format!("reader gave {} but the slice gave {}", o, slice_dr));
             let slice_fs = match guarded(|| borsh::from_slice::<T>(&x)) {
@@ -318,7 +330,9 @@ pub fn c11<T: Full>(g: &mut Gen, b: &Budget, out: &mut Sink) {
             };
             for (entry, want) in [("fr", &slice_fs), ("tfr", &slice_tfs)] {
                 let case = format!("decR {} {} {} {} {}", MODE, ty, hex(&x), sc.sexp(), entry);
+                out.announce_timed(&case, 20);
                 let o = run_reader::<T>(entry, &sc, &x);
+                out.done();
                 out.case(&case, &o);
                 out.oracle("C11", &o == want, &case, &format!("reader gave {} but the slice gave {}", o, want));
             }
@@ -337,7 +351,9 @@ pub fn c11<T: Full>(g: &mut Gen, b: &Budget, out: &mut Sink) {
             let id = g.below(1000) as u32;
             let sc = Script { chunks: gen_chunks(g, stream.len()), intr: gen_intr(g, stream.len()), stop: Stop::Fail(o_fail, code, id) };
             let case = format!("decR {} {} {} {} dr", MODE, ty, hex(&stream), sc.sexp());
+            out.announce_timed(&case, 20);
             let o = run_reader::<T>("dr", &sc, &stream);
+            out.done();
             out.case(&case, &o);
             if o_fail >= len {
                 // a failure the decoder never reaches is invisible
@@ -390,7 +406,9 @@ pub fn c12_large(g: &mut Gen, out: &mut Sink, thorough: bool) {
         let len = full.len();
         let sc = Script { chunks: gen_chunks(g, len), intr: gen_intr(g, len), stop: Stop::None };
         let case = format!("encW {} {} {}", ty, vs, sc.sexp());
+        out.announce_timed(&case, 20);
         let (st, del) = run_writer(&sc, &v);
+        out.done();
         out.case(&case, &format!("{} delivered={}", st, hex(&del)));
         out.oracle("C12", st == "ok" && del == full, &case,
                    &format!("{}: {} bytes delivered, differs from the {}-byte encoding (first difference at {})", st, del.len(), len,
@@ -403,7 +421,9 @@ pub fn c12_large(g: &mut Gen, out: &mut Sink, thorough: bool) {
             let stop = if g.chance(1, 3) { Stop::Zero(k) } else { Stop::Fail(k, g.pick(&KINDS).0, g.below(1000) as u32) };
             let sc = Script { chunks: gen_chunks(g, len), intr: gen_intr(g, len), stop: stop.clone() };
             let case = format!("encW {} {} {}", ty, vs, sc.sexp());
+            out.announce_timed(&case, 20);
             let (st, del) = run_writer(&sc, &v);
+            out.done();
             out.case(&case, &format!("{} delivered={}", st, hex(&del)));
             let want = match stop {
                 Stop::Zero(_) => "err writeZero writeZeroMsg".to_string(),
@@ -464,7 +484,9 @@ pub fn c12<T: Full>(g: &mut Gen, b: &Budget, out: &mut Sink) {
         for _ in 0..(if b.thorough { 8 } else { 3 }) {
             let sc = Script { chunks: gen_chunks(g, len), intr: gen_intr(g, len), stop: Stop::None };
             let case = format!("encW {} {} {}", ty, vs, sc.sexp());
+            out.announce_timed(&case, 20);
             let (st, del) = run_writer(&sc, &v);
+            out.done();
             out.case(&case, &format!("{} delivered={}", st, hex(&del)));
             if bs.is_some() {
                 out.oracle("C12", st == "ok" && del == full, &case, &format!("{} delivered={}", st, hex(&del)));
@@ -485,7 +507,9 @@ pub fn c12<T: Full>(g: &mut Gen, b: &Budget, out: &mut Sink) {
             };
             let sc = Script { chunks: gen_chunks(g, len), intr: gen_intr(g, len), stop: stop.clone() };
             let case = format!("encW {} {} {}", ty, vs, sc.sexp());
+            out.announce_timed(&case, 20);
             let (st, del) = run_writer(&sc, &v);
+            out.done();
             out.case(&case, &format!("{} delivered={}", st, hex(&del)));
             if k < len {
                 let want = match stop {
